@@ -35,7 +35,7 @@ def build_corpus(chk, binary, target="target"):
     """cargo build of one binary of the corpus crate.  Returns (ok, compiler output)."""
     t0 = time.time()
     p = subprocess.run(["cargo", "build", "--release", "--offline", "--target-dir", target, "--bin", binary],
-                       cwd=CORPUS, env=vlib.base_env(), stdout=subprocess.PIPE, stderr=subprocess.STDOUT, text=True)
+                       cwd=CORPUS, env=vlib.base_env(), stdout=subprocess.PIPE, stderr=subprocess.STDOUT, text=True, errors="replace")
     log(f"[build] corpus {binary} {'ok' if p.returncode == 0 else 'FAILED'} in {time.time()-t0:.1f}s")
     return p.returncode == 0, p.stdout
 
@@ -51,7 +51,7 @@ def run_corpus(chk, binary, args, trace, target="target"):
     cmd = [os.path.join(CORPUS, target, "release", binary)] + [str(a) for a in args] + ["--out", trace]
     t0 = time.time()
     p = subprocess.run(cmd, cwd=vlib.ROOT, env=vlib.base_env(), stdout=subprocess.PIPE, stderr=subprocess.STDOUT,
-                       text=True, timeout=3600)
+                       text=True, errors="replace", timeout=3600)
     if p.returncode != 0:
         log(p.stdout[-3000:])
         raise ToolError(f"corpus run failed: {binary} {' '.join(map(str, args))}")
@@ -341,11 +341,11 @@ def prepare_codegen(chk, thorough):
         if not m or int(m.group(1)) >= len(ifaces) or m.group(2) == "err":
             os.remove(os.path.join(gen_dir, f))
     p = subprocess.run([os.path.join(CORPUS, "target", "release", "zc-cgen"), idl_dir, gen_dir], stdout=subprocess.PIPE,
-                       stderr=subprocess.STDOUT, text=True)
+                       stderr=subprocess.STDOUT, text=True, errors="replace")
     if p.returncode != 0:
         raise ToolError("zc-cgen failed: " + p.stdout[-2000:])
     p = subprocess.run(["python3", os.path.join(GEN, "codegen.py"), "driver", path, gen_dir, os.path.join(CG_DIR, "generated.rs")],
-                       stdout=subprocess.PIPE, stderr=subprocess.STDOUT, text=True)
+                       stdout=subprocess.PIPE, stderr=subprocess.STDOUT, text=True, errors="replace")
     if p.returncode != 0:
         # the generated module does not have the shape of the description (a method, field or variant is missing)
         return ifaces, p.stdout.strip()[-2000:]
